@@ -1,0 +1,240 @@
+//go:build verif
+
+// Machine-checked contracts for package rhp (v4) (comment-only; compiled only
+// under the build tag "verif").  Read by /verif/govc; see /verif/DESIGN.md §2.5.
+
+package rhp
+
+//@ spec cost(u Usage) int = types.u128(u.RPC) + types.u128(u.Storage) + types.u128(u.Egress) + types.u128(u.Ingress) + types.u128(u.AccountFunding)
+
+// rhpValid: the data-structure invariant of contracts managed by the protocol.
+//@ spec rhpValid(fc types.V2FileContract) bool = types.u128(fc.MissedHostValue) <= types.u128(fc.TotalCollateral) && types.u128(fc.TotalCollateral) <= types.u128(fc.HostOutput.Value) && fc.Filesize <= fc.Capacity && types.u128(fc.RenterOutput.Value) + types.u128(fc.HostOutput.Value) < types.M128
+
+//@ spec r4k(n int) int = (n + 4095) / 4096 * 4096
+
+//@ func round4KiB
+//@   prop C17
+//@   requires n <= 2^64 - 4096
+//@   ensures @def result == r4k(n)
+//@   ensures @aligned result % 4096 == 0
+//@   ensures @tight n <= result && result < n + 4096
+
+//@ func (Usage).RenterCost
+//@   prop C17
+//@   panics-iff cost(u) >= types.M128
+//@   ensures @sum types.u128(result) == cost(u)
+
+//@ func (Usage).HostRiskedCollateral
+//@   prop C17
+//@   ensures result == u.RiskedCollateral
+
+//@ func (HostPrices).RPCReadSectorCost
+//@   prop C17
+//@   requires length <= 2^64 - 4096
+//@   panics-iff types.u128(hp.EgressPrice) * r4k(length) >= types.M128
+//@   ensures @egress types.u128(result.Egress) == types.u128(hp.EgressPrice) * r4k(length)
+//@   ensures @rest types.u128(result.RPC) == 0 && types.u128(result.Storage) == 0 && types.u128(result.Ingress) == 0 && types.u128(result.AccountFunding) == 0 && types.u128(result.RiskedCollateral) == 0
+
+//@ func (HostPrices).RPCFreeSectorsCost
+//@   prop C17
+//@   requires sectors >= 0
+//@   panics-iff types.u128(hp.FreeSectorPrice) * sectors >= types.M128
+//@   ensures @rpc types.u128(result.RPC) == types.u128(hp.FreeSectorPrice) * sectors
+//@   ensures @rest types.u128(result.Storage) == 0 && types.u128(result.Egress) == 0 && types.u128(result.Ingress) == 0 && types.u128(result.AccountFunding) == 0 && types.u128(result.RiskedCollateral) == 0
+
+//@ func (HostPrices).RPCSectorRootsCost
+//@   prop C17
+//@   requires length <= 2^58
+//@   panics-iff types.u128(hp.EgressPrice) * r4k(32*length) >= types.M128
+//@   ensures @egress types.u128(result.Egress) == types.u128(hp.EgressPrice) * r4k(32*length)
+//@   ensures @rest types.u128(result.RPC) == 0 && types.u128(result.Storage) == 0 && types.u128(result.Ingress) == 0 && types.u128(result.AccountFunding) == 0 && types.u128(result.RiskedCollateral) == 0
+
+//@ func PayWithContract
+//@   prop C17
+//@   requires fc.RevisionNumber < 2^64 - 1
+//@   requires cost(usage) < types.M128
+//@   requires types.u128(fc.RenterOutput.Value) + types.u128(fc.HostOutput.Value) < types.M128
+//@   modifies *fc
+//@   ensures @fail-iff (result != nil) == (types.u128(old(fc.RenterOutput.Value)) < cost(usage) || types.u128(old(fc.MissedHostValue)) < types.u128(usage.RiskedCollateral))
+//@   ensures @fail-clean result != nil ==> *fc == old(*fc)
+//@   ensures @charge result == nil ==> types.u128(fc.RenterOutput.Value) == types.u128(old(fc.RenterOutput.Value)) - cost(usage)
+//@   ensures @credit result == nil ==> types.u128(fc.HostOutput.Value) == types.u128(old(fc.HostOutput.Value)) + cost(usage)
+//@   ensures @risk result == nil ==> types.u128(fc.MissedHostValue) == types.u128(old(fc.MissedHostValue)) - types.u128(usage.RiskedCollateral)
+//@   ensures @collateral result == nil ==> fc.TotalCollateral == old(fc.TotalCollateral)
+//@   ensures @revnum result == nil ==> fc.RevisionNumber == old(fc.RevisionNumber) + 1
+//@   ensures @frame result == nil ==> fc.Capacity == old(fc.Capacity) && fc.Filesize == old(fc.Filesize) && fc.FileMerkleRoot == old(fc.FileMerkleRoot) && fc.ProofHeight == old(fc.ProofHeight) && fc.ExpirationHeight == old(fc.ExpirationHeight) && fc.RenterOutput.Address == old(fc.RenterOutput.Address) && fc.HostOutput.Address == old(fc.HostOutput.Address) && fc.RenterPublicKey == old(fc.RenterPublicKey) && fc.HostPublicKey == old(fc.HostPublicKey)
+//@   ensures @valid result == nil && rhpValid(old(*fc)) && old(fc.ExpirationHeight) > old(fc.ProofHeight) ==> rhpValid(*fc) && consensus.CVRevisionValues(old(*fc), *fc)
+
+//@ func (HostPrices).RPCAppendSectorsCost
+//@   prop C17
+//@   requires sectors <= 2^58
+//@   panics-iff types.u128(hp.StoragePrice) * SectorSize >= types.M128 || types.u128(hp.StoragePrice) * SectorSize * sectors >= types.M128 || types.u128(hp.StoragePrice) * SectorSize * sectors * duration >= types.M128 || types.u128(hp.IngressPrice) * r4k(32*sectors) >= types.M128 || types.u128(hp.Collateral) * SectorSize >= types.M128 || types.u128(hp.Collateral) * SectorSize * sectors >= types.M128 || types.u128(hp.Collateral) * SectorSize * sectors * duration >= types.M128
+//@   ensures @storage types.u128(result.Storage) == types.u128(hp.StoragePrice) * SectorSize * sectors * duration
+//@   ensures @ingress types.u128(result.Ingress) == types.u128(hp.IngressPrice) * r4k(32*sectors)
+//@   ensures @risked types.u128(result.RiskedCollateral) == types.u128(hp.Collateral) * SectorSize * sectors * duration
+//@   ensures @rest types.u128(result.RPC) == 0 && types.u128(result.Egress) == 0 && types.u128(result.AccountFunding) == 0
+
+//@ func ReviseForSectorRoots
+//@   prop C17
+//@   requires numRoots <= 2^58
+//@   requires fc.RevisionNumber < 2^64 - 1
+//@   requires rhpValid(fc) && fc.ExpirationHeight > fc.ProofHeight
+//@   requires types.u128(prices.EgressPrice) * r4k(32*numRoots) < types.M128
+//@   ensures @usage cost(result1) == types.u128(prices.EgressPrice) * r4k(32*numRoots) && types.u128(result1.RiskedCollateral) == 0
+//@   ensures @fail-iff (result2 != nil) == (types.u128(fc.RenterOutput.Value) < cost(result1))
+//@   ensures @charge result2 == nil ==> types.u128(result0.RenterOutput.Value) == types.u128(fc.RenterOutput.Value) - cost(result1) && types.u128(result0.HostOutput.Value) == types.u128(fc.HostOutput.Value) + cost(result1)
+//@   ensures @risk result2 == nil ==> types.u128(result0.MissedHostValue) == types.u128(fc.MissedHostValue) - types.u128(result1.RiskedCollateral) && result0.TotalCollateral == fc.TotalCollateral
+//@   ensures @valid result2 == nil ==> rhpValid(result0) && consensus.CVRevisionValues(fc, result0)
+
+//@ func ReviseForFundAccounts
+//@   prop C17
+//@   requires fc.RevisionNumber < 2^64 - 1
+//@   requires rhpValid(fc) && fc.ExpirationHeight > fc.ProofHeight
+//@   ensures @usage cost(result1) == types.u128(amount) && types.u128(result1.AccountFunding) == types.u128(amount) && types.u128(result1.RiskedCollateral) == 0
+//@   ensures @fail-iff (result2 != nil) == (types.u128(fc.RenterOutput.Value) < types.u128(amount))
+//@   ensures @charge result2 == nil ==> types.u128(result0.RenterOutput.Value) == types.u128(fc.RenterOutput.Value) - cost(result1) && types.u128(result0.HostOutput.Value) == types.u128(fc.HostOutput.Value) + cost(result1)
+//@   ensures @risk result2 == nil ==> result0.MissedHostValue == fc.MissedHostValue && result0.TotalCollateral == fc.TotalCollateral
+//@   ensures @valid result2 == nil ==> rhpValid(result0) && consensus.CVRevisionValues(fc, result0)
+
+//@ func ReviseForReplenish
+//@   prop C17
+//@   requires fc.RevisionNumber < 2^64 - 1
+//@   requires rhpValid(fc) && fc.ExpirationHeight > fc.ProofHeight
+//@   ensures @usage cost(result1) == types.u128(amount) && types.u128(result1.AccountFunding) == types.u128(amount) && types.u128(result1.RiskedCollateral) == 0
+//@   ensures @fail-iff (result2 != nil) == (types.u128(fc.RenterOutput.Value) < types.u128(amount))
+//@   ensures @charge result2 == nil ==> types.u128(result0.RenterOutput.Value) == types.u128(fc.RenterOutput.Value) - cost(result1) && types.u128(result0.HostOutput.Value) == types.u128(fc.HostOutput.Value) + cost(result1)
+//@   ensures @risk result2 == nil ==> result0.MissedHostValue == fc.MissedHostValue && result0.TotalCollateral == fc.TotalCollateral
+//@   ensures @valid result2 == nil ==> rhpValid(result0) && consensus.CVRevisionValues(fc, result0)
+
+//@ func ReviseForFreeSectors
+//@   prop C17
+//@   requires deletions >= 0 && SectorSize * deletions <= fc.Filesize
+//@   requires fc.RevisionNumber < 2^64 - 1
+//@   requires rhpValid(fc) && fc.ExpirationHeight > fc.ProofHeight
+//@   requires types.u128(prices.FreeSectorPrice) * deletions < types.M128
+//@   ensures @usage result2 == nil ==> cost(result1) == types.u128(prices.FreeSectorPrice) * deletions && types.u128(result1.RiskedCollateral) == 0
+//@   ensures @fail-iff (result2 != nil) == (types.u128(fc.RenterOutput.Value) < types.u128(prices.FreeSectorPrice) * deletions)
+//@   ensures @size result2 == nil ==> result0.Filesize == fc.Filesize - SectorSize * deletions && result0.Capacity == fc.Capacity && result0.FileMerkleRoot == newRoot
+//@   ensures @charge result2 == nil ==> types.u128(result0.RenterOutput.Value) == types.u128(fc.RenterOutput.Value) - cost(result1) && types.u128(result0.HostOutput.Value) == types.u128(fc.HostOutput.Value) + cost(result1)
+//@   ensures @risk result2 == nil ==> result0.MissedHostValue == fc.MissedHostValue && result0.TotalCollateral == fc.TotalCollateral
+//@   ensures @valid result2 == nil ==> rhpValid(result0) && consensus.CVRevisionValues(fc, result0)
+
+//@ func ReviseForAppendSectors
+//@   prop C17
+//@   requires appended <= MaxSectorBatchSize
+//@   requires fc.Filesize + SectorSize * appended < 2^64 && fc.Capacity + SectorSize * appended < 2^64
+//@   requires prices.TipHeight <= fc.ExpirationHeight
+//@   requires fc.RevisionNumber < 2^64 - 1
+//@   requires rhpValid(fc) && fc.ExpirationHeight > fc.ProofHeight
+//@   let growth = appended - min(appended, (fc.Capacity - fc.Filesize) / SectorSize)
+//@   let duration = fc.ExpirationHeight - prices.TipHeight
+//@   requires types.u128(prices.StoragePrice) * SectorSize * MaxSectorBatchSize < types.M128 && types.u128(prices.StoragePrice) * SectorSize * (appended - min(appended, (fc.Capacity - fc.Filesize) / SectorSize)) * (fc.ExpirationHeight - prices.TipHeight) < types.M128
+//@   requires types.u128(prices.Collateral) * SectorSize * MaxSectorBatchSize < types.M128 && types.u128(prices.Collateral) * SectorSize * (appended - min(appended, (fc.Capacity - fc.Filesize) / SectorSize)) * (fc.ExpirationHeight - prices.TipHeight) < types.M128
+//@   requires types.u128(prices.IngressPrice) * 2^24 < types.M128
+//@   requires types.u128(prices.StoragePrice) * SectorSize * (appended - min(appended, (fc.Capacity - fc.Filesize) / SectorSize)) * (fc.ExpirationHeight - prices.TipHeight) + types.u128(prices.IngressPrice) * r4k(32 * (appended - min(appended, (fc.Capacity - fc.Filesize) / SectorSize))) < types.M128
+//@   ensures @usage-storage types.u128(result1.Storage) == (result2 == nil ? types.u128(prices.StoragePrice) * SectorSize * growth * duration : 0)
+//@   ensures @usage-risk types.u128(result1.RiskedCollateral) == (result2 == nil ? types.u128(prices.Collateral) * SectorSize * growth * duration : 0)
+//@   ensures @size result2 == nil ==> result0.Filesize == fc.Filesize + SectorSize * appended && result0.Capacity == fc.Capacity + SectorSize * growth && result0.FileMerkleRoot == root
+//@   ensures @charge result2 == nil ==> types.u128(result0.RenterOutput.Value) == types.u128(fc.RenterOutput.Value) - cost(result1) && types.u128(result0.HostOutput.Value) == types.u128(fc.HostOutput.Value) + cost(result1)
+//@   ensures @risk result2 == nil ==> types.u128(result0.MissedHostValue) == types.u128(fc.MissedHostValue) - types.u128(result1.RiskedCollateral) && result0.TotalCollateral == fc.TotalCollateral
+//@   ensures @valid result2 == nil ==> rhpValid(result0) && consensus.CVRevisionValues(fc, result0)
+
+//@ func MinRenterAllowance
+//@   prop C17
+//@   panics-iff types.u128(hp.Collateral) != 0 && types.u128(hp.StoragePrice) * (types.u128(collateral) / types.u128(hp.Collateral)) >= types.M128
+//@   ensures @def types.u128(result) == (types.u128(hp.Collateral) == 0 ? 0 : types.u128(hp.StoragePrice) * (types.u128(collateral) / types.u128(hp.Collateral)))
+
+//@ func MaxHostCollateral
+//@   prop C17
+//@   panics-iff types.u128(hp.StoragePrice) != 0 && types.u128(hp.Collateral) * (types.u128(allowance) / types.u128(hp.StoragePrice)) >= types.M128
+//@   ensures @def types.u128(result) == (types.u128(hp.StoragePrice) == 0 ? types.M128 - 1 : types.u128(hp.Collateral) * (types.u128(allowance) / types.u128(hp.StoragePrice)))
+
+//@ func NewContract
+//@   prop C17
+//@   requires cp.ProofHeight <= 2^64 - 1 - ProofWindow
+//@   panics-iff types.u128(cp.Collateral) + types.u128(p.ContractPrice) >= types.M128
+//@   ensures @outputs result0.RenterOutput.Value == cp.Allowance && result0.RenterOutput.Address == cp.RenterAddress && types.u128(result0.HostOutput.Value) == types.u128(cp.Collateral) + types.u128(p.ContractPrice) && result0.HostOutput.Address == hostAddress
+//@   ensures @collateral result0.MissedHostValue == cp.Collateral && result0.TotalCollateral == cp.Collateral
+//@   ensures @shape result0.Filesize == 0 && result0.Capacity == 0 && result0.RevisionNumber == 0 && result0.ProofHeight == cp.ProofHeight && result0.ExpirationHeight == cp.ProofHeight + ProofWindow && result0.RenterPublicKey == cp.RenterPublicKey && result0.HostPublicKey == hostKey
+//@   ensures @usage result1.RPC == p.ContractPrice && cost(result1) == types.u128(p.ContractPrice) && types.u128(result1.RiskedCollateral) == 0
+//@   ensures @valid types.u128(cp.Allowance) + types.u128(cp.Collateral) + types.u128(p.ContractPrice) < types.M128 ==> rhpValid(result0)
+//@   ensures @consensus types.u128(cp.Allowance) + types.u128(cp.Collateral) + types.u128(p.ContractPrice) < types.M128 && (types.u128(cp.Allowance) > 0 || types.u128(cp.Collateral) + types.u128(p.ContractPrice) > 0) ==> consensus.CVContractValues(result0)
+
+//@ func ContractCost
+//@   prop C17
+//@   requires types.u128(fc.TotalCollateral) <= types.u128(fc.HostOutput.Value)
+//@   requires types.u128(fc.RenterOutput.Value) + types.u128(fc.HostOutput.Value) + consensus.tax(fc) + types.u128(minerFee) < types.M128
+//@   ensures @funds-exactly types.u128(renter) + types.u128(host) == types.u128(fc.RenterOutput.Value) + types.u128(fc.HostOutput.Value) + consensus.tax(fc) + types.u128(minerFee)
+//@   ensures @host types.u128(host) == types.u128(fc.TotalCollateral)
+
+//@ func RenewalCost
+//@   prop C17
+//@   requires types.u128(r.NewContract.TotalCollateral) <= types.u128(r.NewContract.HostOutput.Value)
+//@   requires types.u128(r.HostRollover) <= types.u128(r.NewContract.TotalCollateral)
+//@   requires types.u128(r.RenterRollover) <= types.u128(r.NewContract.RenterOutput.Value) + types.u128(r.NewContract.HostOutput.Value) - types.u128(r.NewContract.TotalCollateral) + types.u128(minerFee) + consensus.tax(r.NewContract)
+//@   requires types.u128(r.NewContract.RenterOutput.Value) + types.u128(r.NewContract.HostOutput.Value) + consensus.tax(r.NewContract) + types.u128(minerFee) < types.M128
+//@   ensures @funds-exactly types.u128(renter) + types.u128(host) + types.u128(r.RenterRollover) + types.u128(r.HostRollover) == types.u128(r.NewContract.RenterOutput.Value) + types.u128(r.NewContract.HostOutput.Value) + consensus.tax(r.NewContract) + types.u128(minerFee)
+//@   ensures @host types.u128(host) == types.u128(r.NewContract.TotalCollateral) - types.u128(r.HostRollover)
+
+//@ func RefreshCost
+//@   prop C17
+//@   requires types.u128(r.RenterRollover) <= types.u128(r.NewContract.RenterOutput.Value) + types.u128(p.ContractPrice)
+//@   requires types.u128(p.ContractPrice) + types.u128(r.HostRollover) <= types.u128(r.NewContract.HostOutput.Value)
+//@   requires types.u128(r.NewContract.RenterOutput.Value) + types.u128(r.NewContract.HostOutput.Value) + consensus.tax(r.NewContract) + types.u128(minerFee) + types.u128(p.ContractPrice) < types.M128
+//@   ensures @funds-exactly types.u128(renter) + types.u128(host) + types.u128(r.RenterRollover) + types.u128(r.HostRollover) == types.u128(r.NewContract.RenterOutput.Value) + types.u128(r.NewContract.HostOutput.Value) + consensus.tax(r.NewContract) + types.u128(minerFee)
+//@   ensures @host types.u128(host) == types.u128(r.NewContract.HostOutput.Value) - types.u128(p.ContractPrice) - types.u128(r.HostRollover)
+
+//@ func RenewContract
+//@   prop C17
+//@   requires rhpValid(fc)
+//@   requires rp.ProofHeight <= 2^64 - 1 - ProofWindow
+//@   requires prices.TipHeight <= rp.ProofHeight + ProofWindow && fc.ExpirationHeight <= rp.ProofHeight + ProofWindow
+//@   requires types.u128(rp.Allowance) > 0
+//@   let E = rp.ProofHeight + ProofWindow
+//@   requires types.u128(prices.Collateral) * fc.Filesize < types.M128 && types.u128(prices.Collateral) * fc.Filesize * (rp.ProofHeight + ProofWindow - prices.TipHeight) < types.M128
+//@   requires types.u128(prices.StoragePrice) * fc.Filesize < types.M128 && types.u128(prices.StoragePrice) * fc.Filesize * (rp.ProofHeight + ProofWindow - fc.ExpirationHeight) < types.M128
+//@   requires types.u128(rp.Allowance) + types.u128(rp.Collateral) + types.u128(prices.Collateral) * fc.Filesize * (rp.ProofHeight + ProofWindow - prices.TipHeight) + types.u128(prices.StoragePrice) * fc.Filesize * (rp.ProofHeight + ProofWindow - fc.ExpirationHeight) + types.u128(prices.ContractPrice) < types.M128
+//@   let N = result0.NewContract
+//@   ensures @split-renter types.u128(result0.FinalRenterOutput.Value) + types.u128(result0.RenterRollover) == types.u128(fc.RenterOutput.Value)
+//@   ensures @split-host types.u128(result0.FinalHostOutput.Value) + types.u128(result0.HostRollover) == types.u128(fc.HostOutput.Value)
+//@   ensures @final-addresses result0.FinalRenterOutput.Address == fc.RenterOutput.Address && result0.FinalHostOutput.Address == fc.HostOutput.Address
+//@   ensures @rollover-bound types.u128(result0.RenterRollover) + types.u128(result0.HostRollover) <= types.u128(N.RenterOutput.Value) + types.u128(N.HostOutput.Value) + consensus.tax(N)
+//@   ensures @rollover-parts types.u128(result0.RenterRollover) <= types.u128(N.RenterOutput.Value) && types.u128(result0.HostRollover) <= types.u128(N.TotalCollateral)
+//@   ensures @new-shape N.RevisionNumber == 0 && N.Capacity == fc.Filesize && N.Filesize == fc.Filesize && N.FileMerkleRoot == fc.FileMerkleRoot && N.ProofHeight == rp.ProofHeight && N.ExpirationHeight == rp.ProofHeight + ProofWindow && N.RenterPublicKey == fc.RenterPublicKey && N.HostPublicKey == fc.HostPublicKey && N.HostOutput.Address == hostAddress && N.RenterOutput.Address == fc.RenterOutput.Address
+//@   ensures @new-values N.RenterOutput.Value == rp.Allowance && N.MissedHostValue == rp.Collateral && types.u128(N.TotalCollateral) == types.u128(rp.Collateral) + types.u128(prices.Collateral) * fc.Filesize * (E - prices.TipHeight) && types.u128(N.HostOutput.Value) == types.u128(N.TotalCollateral) + types.u128(prices.StoragePrice) * fc.Filesize * (E - fc.ExpirationHeight) + types.u128(prices.ContractPrice)
+//@   ensures @valid rhpValid(N)
+//@   ensures @consensus consensus.CVRenewalValues(fc, result0)
+//@   ensures @usage result1.RPC == prices.ContractPrice && types.u128(result1.Storage) == types.u128(prices.StoragePrice) * fc.Filesize * (E - fc.ExpirationHeight) && types.u128(result1.RiskedCollateral) == types.u128(N.TotalCollateral) - types.u128(N.MissedHostValue) && types.u128(result1.Egress) == 0 && types.u128(result1.Ingress) == 0 && types.u128(result1.AccountFunding) == 0
+
+//@ func RefreshContractPartialRollover
+//@   prop C17
+//@   requires rhpValid(fc) && fc.ExpirationHeight > fc.ProofHeight
+//@   requires types.u128(rp.Allowance) > 0
+//@   requires types.u128(fc.HostOutput.Value) + types.u128(rp.Collateral) + types.u128(prices.ContractPrice) + types.u128(rp.Allowance) < types.M128
+//@   let N = result0.NewContract
+//@   ensures @split-renter types.u128(result0.FinalRenterOutput.Value) + types.u128(result0.RenterRollover) == types.u128(fc.RenterOutput.Value)
+//@   ensures @split-host types.u128(result0.FinalHostOutput.Value) + types.u128(result0.HostRollover) == types.u128(fc.HostOutput.Value)
+//@   ensures @final-addresses result0.FinalRenterOutput.Address == fc.RenterOutput.Address && result0.FinalHostOutput.Address == fc.HostOutput.Address
+//@   ensures @rollover-bound types.u128(result0.RenterRollover) + types.u128(result0.HostRollover) <= types.u128(N.RenterOutput.Value) + types.u128(N.HostOutput.Value) + consensus.tax(N)
+//@   ensures @rollover-parts types.u128(result0.RenterRollover) <= types.u128(N.RenterOutput.Value) + types.u128(prices.ContractPrice) && types.u128(result0.HostRollover) + types.u128(prices.ContractPrice) <= types.u128(N.HostOutput.Value)
+//@   ensures @new-shape N.RevisionNumber == 0 && N.Capacity == fc.Capacity && N.Filesize == fc.Filesize && N.FileMerkleRoot == fc.FileMerkleRoot && N.ProofHeight == fc.ProofHeight && N.ExpirationHeight == fc.ExpirationHeight && N.RenterPublicKey == fc.RenterPublicKey && N.HostPublicKey == fc.HostPublicKey && N.HostOutput.Address == hostAddress && N.RenterOutput.Address == fc.RenterOutput.Address
+//@   ensures @new-values N.RenterOutput.Value == rp.Allowance && N.MissedHostValue == rp.Collateral && types.u128(N.TotalCollateral) == types.u128(fc.TotalCollateral) - types.u128(fc.MissedHostValue) + types.u128(rp.Collateral) && types.u128(N.HostOutput.Value) == types.u128(fc.HostOutput.Value) - types.u128(fc.MissedHostValue) + types.u128(rp.Collateral) + types.u128(prices.ContractPrice)
+//@   ensures @valid rhpValid(N)
+//@   ensures @consensus consensus.CVRenewalValues(fc, result0)
+//@   ensures @usage result1.RPC == prices.ContractPrice && cost(result1) == types.u128(prices.ContractPrice) && types.u128(result1.RiskedCollateral) == types.u128(N.TotalCollateral) - types.u128(N.MissedHostValue)
+
+//@ func RefreshContractFullRollover
+//@   prop C17
+//@   requires rhpValid(fc) && fc.ExpirationHeight > fc.ProofHeight
+//@   requires types.u128(fc.RenterOutput.Value) + types.u128(rp.Allowance) > 0
+//@   requires types.u128(fc.RenterOutput.Value) + types.u128(fc.HostOutput.Value) + types.u128(rp.Collateral) + types.u128(prices.ContractPrice) + types.u128(rp.Allowance) < types.M128
+//@   let N = result0.NewContract
+//@   ensures @split-renter types.u128(result0.FinalRenterOutput.Value) + types.u128(result0.RenterRollover) == types.u128(fc.RenterOutput.Value)
+//@   ensures @split-host types.u128(result0.FinalHostOutput.Value) + types.u128(result0.HostRollover) == types.u128(fc.HostOutput.Value)
+//@   ensures @final-addresses result0.FinalRenterOutput.Address == fc.RenterOutput.Address && result0.FinalHostOutput.Address == fc.HostOutput.Address
+//@   ensures @rollover-bound types.u128(result0.RenterRollover) + types.u128(result0.HostRollover) <= types.u128(N.RenterOutput.Value) + types.u128(N.HostOutput.Value) + consensus.tax(N)
+//@   ensures @new-shape N.RevisionNumber == 0 && N.Capacity == fc.Capacity && N.Filesize == fc.Filesize && N.FileMerkleRoot == fc.FileMerkleRoot && N.ProofHeight == fc.ProofHeight && N.ExpirationHeight == fc.ExpirationHeight && N.RenterPublicKey == fc.RenterPublicKey && N.HostPublicKey == fc.HostPublicKey && N.HostOutput.Address == hostAddress && N.RenterOutput.Address == fc.RenterOutput.Address
+//@   ensures @new-values types.u128(N.RenterOutput.Value) == types.u128(fc.RenterOutput.Value) + types.u128(rp.Allowance) && types.u128(N.MissedHostValue) == types.u128(fc.MissedHostValue) + types.u128(rp.Collateral) && types.u128(N.TotalCollateral) == types.u128(fc.TotalCollateral) + types.u128(rp.Collateral) && types.u128(N.HostOutput.Value) == types.u128(fc.HostOutput.Value) + types.u128(rp.Collateral) + types.u128(prices.ContractPrice)
+//@   ensures @valid rhpValid(N)
+//@   ensures @consensus consensus.CVRenewalValues(fc, result0)
+//@   ensures @usage result1.RPC == prices.ContractPrice && cost(result1) == types.u128(prices.ContractPrice) && types.u128(result1.RiskedCollateral) == types.u128(N.TotalCollateral) - types.u128(N.MissedHostValue)
